@@ -42,30 +42,18 @@ theorem and_pointwise (a b : Arr Bool) :
 example : (andK [⟨false, true⟩, ⟨false, true⟩] [⟨true, false⟩, ⟨true, true⟩]).map vals
     = .ok [some false, none] := by decide
 
-/-- Full statement for OR (does NOT hold for the code that exists). -/
-def OrPointwise : Prop := ∀ a b : Arr Bool,
-  (orK a b).map vals = rows2 (fun x y => .ok (specOr x y)) (vals a) (vals b)
-
-/-- OR under the forced hypothesis: raw bits are false under NULL in both inputs. -/
-theorem or_pointwise_partial (a b : Arr Bool) (ha : RawFalseUnderNull a)
-    (hb : RawFalseUnderNull b) :
+/-- K for OR — holds in full since /repo 0494ff0 (an operand counts as TRUE only where it is
+valid): three-valued OR row by row, whatever raw bits lie under NULL. -/
+theorem or_pointwise (a b : Arr Bool) :
     (orK a b).map vals = rows2 (fun x y => .ok (specOr x y)) (vals a) (vals b) := by
   rw [orK_eq]
   apply zipSlotM_vals'
-  intro p hp
-  have h1 := ha p.1 (List.of_mem_zip hp).1
-  have h2 := hb p.2 (List.of_mem_zip hp).2
+  intro p _
   rcases p with ⟨⟨va, ra⟩, ⟨vb, rb⟩⟩
-  cases va <;> cases vb <;> cases ra <;> cases rb <;>
-    simp_all [orSlot, Slot.val, specOr, KOut.map]
+  cases va <;> cases vb <;> cases ra <;> cases rb <;> simp [orSlot, Slot.val, specOr, KOut.map]
 
-example : RawFalseUnderNull [⟨false, false⟩, ⟨true, true⟩] := by
-  intro s hs; simp at hs; rcases hs with h | h <;> simp [h]
-
-/-- Witness: `NULL(raw true) OR FALSE` evaluates to TRUE instead of NULL. -/
-theorem or_pointwise_unsound : ¬ OrPointwise := by
-  intro h
-  exact absurd (h [⟨false, true⟩] [⟨true, false⟩]) (by decide)
+/-- Regression (was the witness of `or_pointwise_unsound`): NULL with raw `true` OR FALSE is NULL. -/
+theorem or_regression : (orK [⟨false, true⟩] [⟨true, false⟩]).map vals = .ok [none] := by decide
 
 theorem not_pointwise (a : Arr Bool) : vals (notK a) = (vals a).map specNot := by
   rw [notK_eq]
@@ -484,13 +472,6 @@ theorem arith_no_tag (op : ArithOp) (w : IW) (x y : Arr Int) (hl : x.length = y.
     repeat' (split at h)
     all_goals exact absurd h (List.cons_ne_nil _ _)
 
-/-- An OR node without reason tag denotes three-valued OR. -/
-theorem or_no_tag (x y : Arr Bool)
-    (h : (rawFalseUnderNullB x && rawFalseUnderNullB y) = true) :
-    (orK x y).map vals = rows2 (fun p q => .ok (specOr p q)) (vals x) (vals y) := by
-  simp only [Bool.and_eq_true] at h
-  exact or_pointwise_partial x y (rawFalseUnderNull_of_B x h.1) (rawFalseUnderNull_of_B y h.2)
-
 /-- K for casts (no hypothesis): `try_unary_op` casts skip NULL slots, the `unary_op` casts
 are value-correct whatever the raw bits. -/
 theorem cast_pointwise (t : Ty) (c : Col) : (Col.cast t c).map Col.abs = specCast t c.abs :=
@@ -565,25 +546,15 @@ theorem replace_abs (f t : String) (a : Arr String) :
   rw [vals_map a _ (Option.map fun s => replaceF f t s)]
   intro s; rcases s with ⟨v, r⟩; cases v <;> simp [Slot.val]
 
-theorem like_abs (p : String) (a : Arr String) (h : likeTags p a = []) :
+theorem like_abs (p : String) (a : Arr String) :
     (Col.like p (.str a)).map Col.abs
       = .ok (.bool ((vals a).map (Option.map fun s => likeSpec p s))) := by
-  unfold likeTags at h
-  split at h
-  · exact absurd h (List.cons_ne_nil _ _)
-  · rename_i hp
-    split at h
-    · split at h <;> exact absurd h (List.cons_ne_nil _ _)
-    · rename_i hx
-      simp only [Col.like, likeK, hp, Bool.false_eq_true, if_false, KOut.map, Col.abs, clearNull,
-        List.map_map]
-      congr 2
-      apply vals_map_mem
-      intro s hs
-      simp only [Bool.not_eq_true, List.any_eq_false] at hx
-      have := hx s hs
-      rcases s with ⟨v, r⟩
-      cases v <;> simp_all [Slot.val]
+  simp only [Col.like, likeK, KOut.map, Col.abs, clearNull, List.map_map]
+  congr 2
+  apply vals_map
+  intro s
+  rcases s with ⟨v, r⟩
+  cases v <;> simp [Slot.val, likeImpl, likeSpec, likeImplToks, likeSpecToks]
 
 theorem substring_abs (a : Arr String) (b c : Arr Int) :
     vals (ternaryOp "" substrF a b c) = specSubstrRows (vals a) (vals b) (vals c) := by
@@ -603,7 +574,7 @@ theorem substring_abs (a : Arr String) (b c : Arr Int) :
         rcases z with ⟨vz, rz⟩
         cases vx <;> cases vy <;> cases vz <;> simp [Slot.val, specSubstrRows, this]
 
-theorem neg_abs (w : IW) (hw : w ≠ .w16) (x : Arr Int)
+theorem neg_abs (w : IW) (x : Arr Int)
     (h : x.all (fun s => (negW w s.raw).isOk) = true) :
     (Col.neg (.int w x)).map Col.abs = (rows1 (specNeg w) (vals x)).map (SCol.int w) := by
   have hv : (unaryOp (negW w) x).map vals = rows1 (specNeg w) (vals x) := by
@@ -625,10 +596,48 @@ theorem neg_abs (w : IW) (hw : w ≠ .w16) (x : Arr Int)
         · cases hc; simp_all
         · cases hc
   rw [← hv]
-  cases w with
-  | w16 => exact absurd rfl hw
-  | w32 => simp only [Col.neg]; cases unaryOp (negW .w32) x <;> rfl
-  | w64 => simp only [Col.neg]; cases unaryOp (negW .w64) x <;> rfl
+  simp only [Col.neg]
+  cases unaryOp (negW w) x <;> rfl
+
+theorem vals_clearNull (c : Arr Bool) : vals (clearNull c) = vals c := by
+  induction c with
+  | nil => rfl
+  | cons x xs ih =>
+    simp only [clearNull, vals, List.map_cons] at ih ⊢
+    rw [ih]
+    rcases x with ⟨v, r⟩
+    cases v <;> simp [Slot.val]
+
+theorem select_abs_bool (s x y : Arr Bool) (h1 : x.length = y.length) (h2 : s.length = x.length) :
+    (Col.select (.bool s) (.bool x) (.bool y)).map Col.abs
+      = (specSelM (vals s) (vals x) (vals y)).map SCol.bool := by
+  have hs := select_pointwise s x y h1 h2
+  have hl : ¬ ((vals x).length ≠ (vals y).length ∨ (vals s).length ≠ (vals x).length) := by
+    simp [vals, h1, h2]
+  simp only [Col.select, specSelM, hl, if_false]
+  cases hk : selectOp s x y with
+  | ok c =>
+    rw [hk] at hs; simp only [KOut.map] at hs ⊢
+    have := KOut.ok.inj hs
+    simp only [Col.abs, vals_clearNull, this, specSelectRows]
+  | err => rw [hk] at hs; cases hs
+  | panic => rw [hk] at hs; cases hs
+
+theorem select_abs_str (s : Arr Bool) (x y : Arr String) (h1 : x.length = y.length)
+    (h2 : s.length = x.length) :
+    (Col.select (.bool s) (.str x) (.str y)).map Col.abs
+      = (specSelM (vals s) (vals x) (vals y)).map SCol.str := by
+  have hs := select_pointwise s x y h1 h2
+  have hl : ¬ ((vals x).length ≠ (vals y).length ∨ (vals s).length ≠ (vals x).length) := by
+    simp [vals, h1, h2]
+  simp only [Col.select, specSelM, hl, if_false]
+  cases hk : selectOp s x y with
+  | ok c =>
+    rw [hk] at hs; simp only [KOut.map] at hs ⊢
+    have := KOut.ok.inj hs
+    simp only [Col.abs, this, specSelectRows]
+  | err => rw [hk] at hs; cases hs
+  | panic => rw [hk] at hs; cases hs
 
 theorem select_abs (s : Arr Bool) (w : IW) (x y : Arr Int) (h1 : x.length = y.length)
     (h2 : s.length = x.length) :
@@ -839,11 +848,8 @@ theorem eval_tree_pointwise (chunk : List Col) (n : Nat) (hwf : ChunkWF chunk n)
         rw [← ea, ← eb]
         simp only
         cases ca <;> cases cb <;> first
-          | (rename_i x y
-             simp only [Col.or, Col.abs, SCol.asBool] at htg ⊢
-             have hh : (rawFalseUnderNullB x && rawFalseUnderNullB y) = true := by
-               cases hc : (rawFalseUnderNullB x && rawFalseUnderNullB y) <;> simp [hc] at htg ⊢
-             rw [map_abs_bool, or_no_tag x y hh])
+          | (simp only [Col.or, Col.abs, SCol.asBool] at htg ⊢
+             rw [map_abs_bool, or_pointwise])
           | (simp [Col.or, Col.abs, KOut.map, Col.ty, SCol.asBool] at htg ⊢)
       | err =>
         simp only [List.append_eq_nil_iff] at ht
@@ -915,20 +921,11 @@ theorem eval_tree_pointwise (chunk : List Col) (n : Nat) (hwf : ChunkWF chunk n)
         simp only
         cases ca with
         | int w x =>
-          cases w with
-          | w16 => simp at htg
-          | w32 =>
-            simp only [Col.abs]
-            have hh : x.all (fun s => (negW .w32 s.raw).isOk) = true := by
-              cases hc : x.all (fun s => (negW .w32 s.raw).isOk) <;> simp [hc] at htg ⊢
-              split at htg <;> simp at htg
-            exact neg_abs .w32 (by decide) x hh
-          | w64 =>
-            simp only [Col.abs]
-            have hh : x.all (fun s => (negW .w64 s.raw).isOk) = true := by
-              cases hc : x.all (fun s => (negW .w64 s.raw).isOk) <;> simp [hc] at htg ⊢
-              split at htg <;> simp at htg
-            exact neg_abs .w64 (by decide) x hh
+          simp only [Col.abs]
+          have hh : x.all (fun s => (negW w s.raw).isOk) = true := by
+            cases hc : x.all (fun s => (negW w s.raw).isOk) <;> simp [hc] at htg ⊢
+            split at htg <;> simp at htg
+          exact neg_abs w x hh
         | null k => simp at htg
         | bool x => simp [Col.neg, Col.abs, KOut.map]
         | str x => simp [Col.neg, Col.abs, KOut.map]
@@ -1059,8 +1056,8 @@ theorem eval_tree_pointwise (chunk : List Col) (n : Nat) (hwf : ChunkWF chunk n)
         rw [← ea]
         simp only
         cases ca with
-        | str x => simp only [Col.abs]; exact like_abs p x htg
-        | null k => simp at htg
+        | str x => simp only [Col.abs]; exact like_abs p x
+        | null k => simp [Col.ty] at htg
         | bool x => simp [Col.like, Col.abs, KOut.map]
         | int w x => simp [Col.like, Col.abs, KOut.map]
     | err =>
@@ -1209,8 +1206,24 @@ theorem eval_tree_pointwise (chunk : List Col) (n : Nat) (hwf : ChunkWF chunk n)
               | bool y => simp [Col.select, Col.abs, SCol.asBool, KOut.map]
               | str y => simp [Col.select, Col.abs, SCol.asBool, KOut.map]
             | null k => simp [Col.ty] at htg
-            | bool x => cases c3 <;> simp [Col.select, Col.abs, SCol.asBool, KOut.map, Col.ty] at htg ⊢
-            | str x => cases c3 <;> simp [Col.select, Col.abs, SCol.asBool, KOut.map, Col.ty] at htg ⊢
+            | bool x =>
+              cases c3 with
+              | bool y =>
+                simp only [Col.abs, SCol.asBool]
+                exact select_abs_bool s x y (by simpa [Col.len] using l2.trans l3.symm)
+                  (by simpa [Col.len] using l1.trans l2.symm)
+              | null k => simp [Col.ty] at htg
+              | int w y => simp [Col.select, Col.abs, SCol.asBool, KOut.map]
+              | str y => simp [Col.select, Col.abs, SCol.asBool, KOut.map]
+            | str x =>
+              cases c3 with
+              | str y =>
+                simp only [Col.abs, SCol.asBool]
+                exact select_abs_str s x y (by simpa [Col.len] using l2.trans l3.symm)
+                  (by simpa [Col.len] using l1.trans l2.symm)
+              | null k => simp [Col.ty] at htg
+              | int w y => simp [Col.select, Col.abs, SCol.asBool, KOut.map]
+              | bool y => simp [Col.select, Col.abs, SCol.asBool, KOut.map]
           | null k => simp [Col.ty] at htg
           | int w s => cases c2 <;> cases c3 <;> simp [Col.select, Col.abs, SCol.asBool, KOut.map, Col.ty] at htg ⊢
           | str s => cases c2 <;> cases c3 <;> simp [Col.select, Col.abs, SCol.asBool, KOut.map, Col.ty] at htg ⊢
@@ -1343,65 +1356,26 @@ theorem eval_tree_pointwise (chunk : List Col) (n : Nat) (hwf : ChunkWF chunk n)
 
 /-! ## LIKE -/
 
-theorem matchT_nl (ts : List LTok) (xs : List Char) (h : ∀ c ∈ xs, c ≠ '\n') :
-    matchT false ts xs = matchT true ts xs := by
-  fun_induction matchT false ts xs <;> simp_all [matchT]
-  rename_i x _ _ _
-  have : (x != '\n') = true := by simp [h.1]
-  simp [this]
-
-theorem likeToks_no_dot (p : List Char) (h : '.' ∉ p) : likeImplToks p = likeSpecToks p := by
-  induction p with
-  | nil => rfl
-  | cons c cs ih =>
-    simp only [likeImplToks, likeSpecToks, List.map_cons] at ih ⊢
-    have hc : c ≠ '.' := fun e => h (by simp [e])
-    rw [ih (fun hm => h (by simp [hm]))]
-    simp [hc]
-
-/-- LIKE agrees with SQL for a pattern without `.` on strings without line feeds. -/
-theorem like_dotfree_partial (p s : String) (hp : '.' ∉ p.toList) (hs : ∀ c ∈ s.toList, c ≠ '\n') :
-    likeImpl p s = likeSpec p s := by
-  simp only [likeImpl, likeSpec, likeToks_no_dot p.toList hp]
-  exact matchT_nl _ _ hs
-
-/-- Full statement for LIKE (does NOT hold): the kernel decides SQL LIKE on every non-NULL row. -/
-def LikePointwise : Prop := ∀ (p : String) (a : Arr String), likePanics p.toList = false →
-  (likeK p a).map vals = .ok ((vals a).map (Option.map fun s => likeSpec p s))
-
-theorem like_witness : likeImpl "a.c" "abc" = true ∧ likeSpec "a.c" "abc" = false := by
-  constructor <;> simp [likeImpl, likeSpec, likeImplToks, likeSpecToks, matchT]
-
-theorem like_pointwise_unsound : ¬ LikePointwise := by
-  intro h
-  have := h "a.c" [⟨true, "abc"⟩] (by simp [likePanics])
-  simp [likeK, likePanics, clearNull, vals, Slot.val, KOut.map, like_witness.1, like_witness.2] at this
-
-theorem like_newline_witness : likeImpl "a_b" "a\nb" = false ∧ likeSpec "a_b" "a\nb" = true := by
-  constructor <;> simp [likeImpl, likeSpec, likeImplToks, likeSpecToks, matchT]
-
-theorem like_invalid_regex_panics (a : Arr String) : likeK "a(" a = .panic := by
-  simp [likeK, likePanics]
-
-/-- LIKE under the forced hypothesis (the tag computation): every valid row's string is decided
-alike by the translated regex and by SQL LIKE, and the pattern compiles. -/
-theorem like_pointwise_partial (p : String) (a : Arr String) (h : likeTags p a = []) :
+/-- K for LIKE — holds in full since /repo 1ee6bdb (`like_to_regex` escapes literal characters and
+sets `(?s)`): SQL LIKE on every non-NULL row, NULL on NULL rows, for every pattern; no pattern
+makes the kernel fail. -/
+theorem like_pointwise (p : String) (a : Arr String) :
     (Col.like p (.str a)).map Col.abs
-      = .ok (.bool ((vals a).map (Option.map fun s => likeSpec p s))) := like_abs p a h
+      = .ok (.bool ((vals a).map (Option.map fun s => likeSpec p s))) := like_abs p a
+
+/-- Regressions (the former witnesses): `.` is a literal, `_` matches a line feed, `(` is legal. -/
+theorem like_regression :
+    likeImpl "a.c" "abc" = false ∧ likeImpl "a_b" "a\nb" = true ∧
+    (likeK "a(" [⟨true, "a("⟩]).map vals = .ok [some true] := by
+  refine ⟨?_, ?_, ?_⟩ <;>
+    simp [likeK, likeImpl, likeImplToks, matchT, clearNull, vals, Slot.val, KOut.map]
 
 /-! ## Constant folding -/
 
-/-- Full statement (does NOT hold): whenever `eval_constant` folds an expression to `v` and the
-evaluator computes a value for it, the value is `v`. -/
-def FoldEqEval : Prop := ∀ (e : KExpr) (v : KVal) (c : Col),
-  foldC e = .ok (some v) → (evalK [] 1 e).1 = .ok c → c.get0 = v
-
-/-- Witness: `(1/0 = 1) OR true` — folded to NULL by the NULL short-cut, evaluated it is TRUE. -/
-theorem fold_eq_eval_unsound : ¬ FoldEqEval := by
-  intro h
-  have := h (.or (.cmp .eq (.arith .div (.const (.int .w32 1)) (.const (.int .w32 0))) (.const (.int .w32 1)))
-      (.const (.bool true))) .null (.bool [⟨true, true⟩]) (by decide) (by decide)
-  simp [Col.get0] at this
+/-- Regression (was the witness of `fold_eq_eval_unsound`): `(1/0 = 1) OR true` folds to TRUE. -/
+theorem fold_regression :
+    foldC (.or (.cmp .eq (.arith .div (.const (.int .w32 1)) (.const (.int .w32 0))) (.const (.int .w32 1)))
+      (.const (.bool true))) = .ok (some (.bool true)) := by decide
 
 /-- Folding a division by a zero constant gives NULL, as the run-time kernel does. -/
 example : foldC (.arith .div (.const (.int .w32 1)) (.const (.int .w32 0))) = .ok (some .null) := by
@@ -1453,9 +1427,10 @@ theorem const_of_get0 (c : Col) (v : KVal) (hl : c.len = 1) (hg : c.get0 = v)
 theorem foldBin_sound (K : Col → Col → KOut Col) (fa fb : KOut (Option KVal)) (ca cb c : Col)
     (v : KVal) (ha : ∀ va, fa = .ok (some va) → ca.get0 = va)
     (hb : ∀ vb, fb = .ok (some vb) → cb.get0 = vb) (la : ca.len = 1) (lb : cb.len = 1)
+    (sc : KVal → KVal → KVal)
     (hstrict : ∀ va vb, fa = .ok (some va) → fb = .ok (some vb) →
-      (va.isNull || vb.isNull) = true → c.get0 = .null)
-    (hf : foldBin fa fb K = .ok (some v)) (hk : K ca cb = .ok c) : c.get0 = v := by
+      (va.isNull || vb.isNull) = true → c.get0 = sc va vb)
+    (hf : foldBin fa fb K sc = .ok (some v)) (hk : K ca cb = .ok c) : c.get0 = v := by
   unfold foldBin at hf
   cases fa with
   | ok oa =>
@@ -1507,7 +1482,7 @@ theorem foldUn_sound (K : Col → KOut Col) (fa : KOut (Option KVal)) (ca c : Co
   | err => simp at hf
   | panic => simp at hf
 
-/-! ### `fold_eq_eval` under the forced hypothesis -/
+/-! ### `fold_eq_eval` -/
 
 theorem binaryOp_invalid {α β γ} (f : α → β → KOut γ) (a : Arr α) (b : Arr β) (c : Arr γ)
     (h : ∀ p ∈ List.zip a b, (p.1.valid && p.2.valid) = false) (hk : binaryOp f a b = .ok c) :
@@ -1665,33 +1640,60 @@ theorem neg_strict (ca c : Col) (la : ca.len = 1) (hn : ca.get0 = .null)
     match a, la with
     | [s], _ =>
       have hs := hinv s (by simp)
-      cases w <;> simp [Col.neg, unaryOp, raws, valids, mapRawM] at hk
-      · cases hf : negW .w32 s.raw <;> simp [hf, fromData] at hk
-        subst hk; simp [Col.get0, hs]
-      · cases hf : negW .w64 s.raw <;> simp [hf, fromData] at hk
-        subst hk; simp [Col.get0, hs]
+      simp [Col.neg, unaryOp, raws, valids, mapRawM] at hk
+      cases hf : negW w s.raw <;> simp [hf, fromData] at hk
+      subst hk; simp [Col.get0, hs]
   | null k => simp [Col.neg] at hk
   | bool x => simp [Col.neg] at hk
   | str x => simp [Col.neg] at hk
 
 
-/-- `fold_eq_eval` under the forced hypothesis (no AND/OR is folded through the NULL short-cut):
-whenever `eval_constant` folds an expression to `v` and the evaluator computes a value for it,
-that value is `v`. -/
-theorem fold_eq_eval_partial (e : KExpr) : ∀ (v : KVal) (c : Col), foldTags e = [] →
+theorem and_fold_value (ca cb c : Col) (la : ca.len = 1) (lb : cb.len = 1)
+    (hn : ca.get0 = .null ∨ cb.get0 = .null) (hk : Col.and ca cb = .ok c) :
+    c.get0 = logicShortcut true ca.get0 cb.get0 := by
+  cases ca <;> cases cb <;> simp [Col.and] at hk
+  rename_i a b
+  match a, b, la, lb with
+  | [s], [t], _, _ =>
+    rw [andK_eq] at hk
+    simp [zipSlotM, KOut.map] at hk
+    subst hk
+    rcases s with ⟨sv, sr⟩
+    rcases t with ⟨tv, tr⟩
+    cases sv <;> cases sr <;> cases tv <;> cases tr <;>
+      simp_all [Col.get0, andSlot, logicShortcut]
+
+theorem or_fold_value (ca cb c : Col) (la : ca.len = 1) (lb : cb.len = 1)
+    (hn : ca.get0 = .null ∨ cb.get0 = .null) (hk : Col.or ca cb = .ok c) :
+    c.get0 = logicShortcut false ca.get0 cb.get0 := by
+  cases ca <;> cases cb <;> simp [Col.or] at hk
+  rename_i a b
+  match a, b, la, lb with
+  | [s], [t], _, _ =>
+    rw [orK_eq] at hk
+    simp [zipSlotM, KOut.map] at hk
+    subst hk
+    rcases s with ⟨sv, sr⟩
+    rcases t with ⟨tv, tr⟩
+    cases sv <;> cases sr <;> cases tv <;> cases tr <;>
+      simp_all [Col.get0, orSlot, logicShortcut]
+
+/-- `fold_eq_eval` — holds in full since /repo 543c949 (AND / OR fold with three-valued logic):
+whenever `eval_constant` folds an expression to `v` and the evaluator computes a value for the same
+expression, that value is `v`. -/
+theorem fold_eq_eval (e : KExpr) : ∀ (v : KVal) (c : Col),
     foldC e = .ok (some v) → (evalK [] 1 e).1 = .ok c → c.get0 = v := by
   have wf : ChunkWF [] 1 := fun c hc => by cases hc
   induction e with
-  | col i => intro v c _ hf _; simp [foldC] at hf
+  | col i => intro v c hf _; simp [foldC] at hf
   | const k =>
-    intro v c _ hf he
+    intro v c hf he
     simp only [foldC] at hf
     simp only [evalK] at he
     cases hf; cases he
     cases k <;> simp [constCol, Col.get0]
   | arith op a b iha ihb =>
-    intro v c ht hf he
-    simp only [foldTags, List.append_eq_nil_iff] at ht
+    intro v c hf he
     simp only [foldC] at hf
     simp only [evalK] at he
     rcases ha : evalK [] 1 a with ⟨ra, ta⟩
@@ -1706,18 +1708,18 @@ theorem fold_eq_eval_partial (e : KExpr) : ∀ (v : KVal) (c : Col), foldTags e 
         have la := evalK_len [] 1 wf a ca (by rw [ha])
         have lb := evalK_len [] 1 wf b cb (by rw [hb])
         exact foldBin_sound (Col.arith op) (foldC a) (foldC b) ca cb c v
-          (fun va h => iha va ca ht.1 h (by rw [ha])) (fun vb h => ihb vb cb ht.2 h (by rw [hb])) la lb
+          (fun va h => iha va ca h (by rw [ha])) (fun vb h => ihb vb cb h (by rw [hb])) la lb
+          (fun _ _ => .null)
           (fun va vb h1 h2 hn => arith_strict op ca cb c la lb
             (((Bool.or_eq_true _ _).mp hn).imp
-              (fun h => by rw [iha va ca ht.1 h1 (by rw [ha]), isNull_eq va h])
-              (fun h => by rw [ihb vb cb ht.2 h2 (by rw [hb]), isNull_eq vb h])) he) hf he
+              (fun h => by rw [iha va ca h1 (by rw [ha]), isNull_eq va h])
+              (fun h => by rw [ihb vb cb h2 (by rw [hb]), isNull_eq vb h])) he) hf he
       | err => simp at he
       | panic => simp at he
     | err => simp at he
     | panic => simp at he
   | cmp op a b iha ihb =>
-    intro v c ht hf he
-    simp only [foldTags, List.append_eq_nil_iff] at ht
+    intro v c hf he
     simp only [foldC] at hf
     simp only [evalK] at he
     rcases ha : evalK [] 1 a with ⟨ra, ta⟩
@@ -1732,18 +1734,18 @@ theorem fold_eq_eval_partial (e : KExpr) : ∀ (v : KVal) (c : Col), foldTags e 
         have la := evalK_len [] 1 wf a ca (by rw [ha])
         have lb := evalK_len [] 1 wf b cb (by rw [hb])
         exact foldBin_sound (Col.cmp op) (foldC a) (foldC b) ca cb c v
-          (fun va h => iha va ca ht.1 h (by rw [ha])) (fun vb h => ihb vb cb ht.2 h (by rw [hb])) la lb
+          (fun va h => iha va ca h (by rw [ha])) (fun vb h => ihb vb cb h (by rw [hb])) la lb
+          (fun _ _ => .null)
           (fun va vb h1 h2 hn => cmp_strict op ca cb c la lb
             (((Bool.or_eq_true _ _).mp hn).imp
-              (fun h => by rw [iha va ca ht.1 h1 (by rw [ha]), isNull_eq va h])
-              (fun h => by rw [ihb vb cb ht.2 h2 (by rw [hb]), isNull_eq vb h])) he) hf he
+              (fun h => by rw [iha va ca h1 (by rw [ha]), isNull_eq va h])
+              (fun h => by rw [ihb vb cb h2 (by rw [hb]), isNull_eq vb h])) he) hf he
       | err => simp at he
       | panic => simp at he
     | err => simp at he
     | panic => simp at he
   | and a b iha ihb =>
-    intro v c ht hf he
-    simp only [foldTags, List.append_eq_nil_iff] at ht
+    intro v c hf he
     simp only [foldC] at hf
     simp only [evalK] at he
     rcases ha : evalK [] 1 a with ⟨ra, ta⟩
@@ -1758,18 +1760,21 @@ theorem fold_eq_eval_partial (e : KExpr) : ∀ (v : KVal) (c : Col), foldTags e 
         have la := evalK_len [] 1 wf a ca (by rw [ha])
         have lb := evalK_len [] 1 wf b cb (by rw [hb])
         exact foldBin_sound (Col.and) (foldC a) (foldC b) ca cb c v
-          (fun va h => iha va ca ht.1.1 h (by rw [ha])) (fun vb h => ihb vb cb ht.1.2 h (by rw [hb])) la lb
+          (fun va h => iha va ca h (by rw [ha])) (fun vb h => ihb vb cb h (by rw [hb])) la lb
+          (logicShortcut true)
           (fun va vb h1 h2 hn => by
-            have htag := ht.2
-            rw [h1, h2] at htag
-            simp [hn] at htag) hf he
+            have e1 := iha va ca h1 (by rw [ha])
+            have e2 := ihb vb cb h2 (by rw [hb])
+            rw [← e1, ← e2]
+            exact and_fold_value ca cb c la lb
+              (((Bool.or_eq_true _ _).mp hn).imp
+                (fun h => by rw [e1, isNull_eq va h]) (fun h => by rw [e2, isNull_eq vb h])) he) hf he
       | err => simp at he
       | panic => simp at he
     | err => simp at he
     | panic => simp at he
   | or a b iha ihb =>
-    intro v c ht hf he
-    simp only [foldTags, List.append_eq_nil_iff] at ht
+    intro v c hf he
     simp only [foldC] at hf
     simp only [evalK] at he
     rcases ha : evalK [] 1 a with ⟨ra, ta⟩
@@ -1784,18 +1789,21 @@ theorem fold_eq_eval_partial (e : KExpr) : ∀ (v : KVal) (c : Col), foldTags e 
         have la := evalK_len [] 1 wf a ca (by rw [ha])
         have lb := evalK_len [] 1 wf b cb (by rw [hb])
         exact foldBin_sound (Col.or) (foldC a) (foldC b) ca cb c v
-          (fun va h => iha va ca ht.1.1 h (by rw [ha])) (fun vb h => ihb vb cb ht.1.2 h (by rw [hb])) la lb
+          (fun va h => iha va ca h (by rw [ha])) (fun vb h => ihb vb cb h (by rw [hb])) la lb
+          (logicShortcut false)
           (fun va vb h1 h2 hn => by
-            have htag := ht.2
-            rw [h1, h2] at htag
-            simp [hn] at htag) hf he
+            have e1 := iha va ca h1 (by rw [ha])
+            have e2 := ihb vb cb h2 (by rw [hb])
+            rw [← e1, ← e2]
+            exact or_fold_value ca cb c la lb
+              (((Bool.or_eq_true _ _).mp hn).imp
+                (fun h => by rw [e1, isNull_eq va h]) (fun h => by rw [e2, isNull_eq vb h])) he) hf he
       | err => simp at he
       | panic => simp at he
     | err => simp at he
     | panic => simp at he
   | concat a b iha ihb =>
-    intro v c ht hf he
-    simp only [foldTags, List.append_eq_nil_iff] at ht
+    intro v c hf he
     simp only [foldC] at hf
     simp only [evalK] at he
     rcases ha : evalK [] 1 a with ⟨ra, ta⟩
@@ -1810,18 +1818,18 @@ theorem fold_eq_eval_partial (e : KExpr) : ∀ (v : KVal) (c : Col), foldTags e 
         have la := evalK_len [] 1 wf a ca (by rw [ha])
         have lb := evalK_len [] 1 wf b cb (by rw [hb])
         exact foldBin_sound (Col.concat) (foldC a) (foldC b) ca cb c v
-          (fun va h => iha va ca ht.1 h (by rw [ha])) (fun vb h => ihb vb cb ht.2 h (by rw [hb])) la lb
+          (fun va h => iha va ca h (by rw [ha])) (fun vb h => ihb vb cb h (by rw [hb])) la lb
+          (fun _ _ => .null)
           (fun va vb h1 h2 hn => concat_strict ca cb c la lb
             (((Bool.or_eq_true _ _).mp hn).imp
-              (fun h => by rw [iha va ca ht.1 h1 (by rw [ha]), isNull_eq va h])
-              (fun h => by rw [ihb vb cb ht.2 h2 (by rw [hb]), isNull_eq vb h])) he) hf he
+              (fun h => by rw [iha va ca h1 (by rw [ha]), isNull_eq va h])
+              (fun h => by rw [ihb vb cb h2 (by rw [hb]), isNull_eq vb h])) he) hf he
       | err => simp at he
       | panic => simp at he
     | err => simp at he
     | panic => simp at he
   | neg a iha =>
-    intro v c ht hf he
-    simp only [foldTags] at ht
+    intro v c hf he
     simp only [foldC] at hf
     simp only [evalK] at he
     rcases ha : evalK [] 1 a with ⟨ra, ta⟩
@@ -1830,13 +1838,12 @@ theorem fold_eq_eval_partial (e : KExpr) : ∀ (v : KVal) (c : Col), foldTags e 
     | ok ca =>
       simp only at he
       have la := evalK_len [] 1 wf a ca (by rw [ha])
-      exact foldUn_sound (Col.neg) (foldC a) ca c v (fun va h => iha va ca ht h (by rw [ha])) la
+      exact foldUn_sound (Col.neg) (foldC a) ca c v (fun va h => iha va ca h (by rw [ha])) la
         (fun hn => neg_strict ca c la hn he) hf he
     | err => simp at he
     | panic => simp at he
   | not a iha =>
-    intro v c ht hf he
-    simp only [foldTags] at ht
+    intro v c hf he
     simp only [foldC] at hf
     simp only [evalK] at he
     rcases ha : evalK [] 1 a with ⟨ra, ta⟩
@@ -1845,13 +1852,12 @@ theorem fold_eq_eval_partial (e : KExpr) : ∀ (v : KVal) (c : Col), foldTags e 
     | ok ca =>
       simp only at he
       have la := evalK_len [] 1 wf a ca (by rw [ha])
-      exact foldUn_sound (Col.not) (foldC a) ca c v (fun va h => iha va ca ht h (by rw [ha])) la
+      exact foldUn_sound (Col.not) (foldC a) ca c v (fun va h => iha va ca h (by rw [ha])) la
         (fun hn => not_strict ca c la hn he) hf he
     | err => simp at he
     | panic => simp at he
   | isnull a iha =>
-    intro v c ht hf he
-    simp only [foldTags] at ht
+    intro v c hf he
     simp only [foldC] at hf
     simp only [evalK] at he
     rcases ha : evalK [] 1 a with ⟨ra, ta⟩
@@ -1868,7 +1874,7 @@ theorem fold_eq_eval_partial (e : KExpr) : ∀ (v : KVal) (c : Col), foldTags e 
           rw [hfa] at hf
           simp only at hf
           cases hf
-          have hg := iha va ca ht hfa (by rw [ha])
+          have hg := iha va ca hfa (by rw [ha])
           subst hg
           cases ca with
           | null k => match k, la with | 1, _ => rfl
@@ -1881,8 +1887,7 @@ theorem fold_eq_eval_partial (e : KExpr) : ∀ (v : KVal) (c : Col), foldTags e 
     | err => simp at he
     | panic => simp at he
   | cast t a iha =>
-    intro v c ht hf he
-    simp only [foldTags] at ht
+    intro v c hf he
     simp only [foldC] at hf
     simp only [evalK] at he
     rcases ha : evalK [] 1 a with ⟨ra, ta⟩
@@ -1897,7 +1902,7 @@ theorem fold_eq_eval_partial (e : KExpr) : ∀ (v : KVal) (c : Col), foldTags e 
         | some va =>
           rw [hfa] at hf
           simp only at hf
-          have hg := iha va ca ht hfa (by rw [ha])
+          have hg := iha va ca hfa (by rw [ha])
           by_cases hn : va.isNull = true
           · have hv := isNull_eq va hn
             subst hv
@@ -1925,23 +1930,23 @@ theorem fold_eq_eval_partial (e : KExpr) : ∀ (v : KVal) (c : Col), foldTags e 
     | err => simp at he
     | panic => simp at he
   | ite cnd t e ihc iht ihe =>
-    intro v c _ hf _
+    intro v c hf _
     simp only [foldC, foldNone] at hf
     split at hf <;> cases hf
   | like a p iha =>
-    intro v c _ hf _
+    intro v c hf _
     simp only [foldC, foldNone] at hf
     split at hf <;> cases hf
   | substring s b c0 ihs ihb ihc =>
-    intro v c _ hf _
+    intro v c hf _
     simp only [foldC, foldNone] at hf
     split at hf <;> cases hf
   | replace a f t iha =>
-    intro v c _ hf _
+    intro v c hf _
     simp only [foldC, foldNone] at hf
     split at hf <;> cases hf
   | repeat_ s k ihs ihk =>
-    intro v c _ hf _
+    intro v c hf _
     simp only [foldC, foldNone] at hf
     split at hf <;> cases hf
 
